@@ -16,8 +16,8 @@ Import ListNotations.
    reverse connections, any client bytes; both list-handling variants.  [proved c]: the response
    read from the client is the DES encryption of the challenge sent to it under a password that
    was configured on its screen at the moment of the check (ghost c_pws, see C05_password_snapshot). *)
-Theorem C05_sound : forall single ext tight ops c s,
-  let p := run (cfgF single ext tight) proc_init ops in
+Theorem C05_sound : forall single ext tight chk ops c s,
+  let p := run (cfgF single ext tight chk) proc_init ops in
   In c (p_conns p) -> nth_error (p_screens p) (c_screen c) = Some s ->
   protected s c = true -> granted c = true -> proved c.
 Proof. exact sound_fixed. Qed.
@@ -26,8 +26,8 @@ Proof. exact sound_fixed. Qed.
    failed / ServerInit written ([say] appends bytes and token together, C05_told_coupled): a client of a
    protected screen that has been told OK or been given ServerInit has proved the password, also when
    the connection has been closed since. *)
-Theorem C05_sound_wire : forall single ext tight ops c s,
-  let p := run (cfgF single ext tight) proc_init ops in
+Theorem C05_sound_wire : forall single ext tight chk ops c s,
+  let p := run (cfgF single ext tight chk) proc_init ops in
   In c (p_conns p) -> nth_error (p_screens p) (c_screen c) = Some s ->
   protected s c = true -> told_in c -> proved c.
 Proof. exact sound_wire_fixed. Qed.
@@ -38,49 +38,68 @@ Proof. exact say_coupled. Qed.
 (* soundness is not obtained by the totalisation of the mirror: on every trace whose operations name
    existing screens / connections / handler objects the error flag (fuel or index exhaustion, which
    would close a client where C does not) is never raised.  Bound: four application handler types. *)
-Theorem C05_no_error_flag_4handlers : forall single ext tight ops, length ext = 4%nat ->
-  valid_run (cfgF single ext tight) proc_init ops -> p_err (run (cfgF single ext tight) proc_init ops) = false.
+Theorem C05_no_error_flag_4handlers : forall single ext tight chk ops, length ext = 4%nat ->
+  valid_run (cfgF single ext tight chk) proc_init ops -> p_err (run (cfgF single ext tight chk) proc_init ops) = false.
 Proof. exact no_err_fixed. Qed.
 
 (* the password set recorded for a connection is the one of its screen when the response is handled *)
+(* custom passwordCheck callbacks: C05_sound is for an ARBITRARY callback [chk] (screens of mode PwCustom);
+   for such a screen "proved" means: the callback returned TRUE for the challenge sent on this connection *)
+Theorem C05_proved_custom : forall c, proved c -> c_pws c = [] ->
+  exists r, c_resp c = Some r /\ c_judged c = Some (c_sent c, r).
+Proof. exact proved_custom. Qed.
+
+Theorem C05_judged_is_verdict : forall cf s e c resp e' c',
+  on_response cf s e c resp = (e', c') -> s_pw s = PwCustom ->
+  (c_judged c' = Some (c_chal c, resp) /\ cfg_check cf (c_chal c) resp = true /\ c_st c' = StInit) \/
+  (c_judged c' = c_judged c /\ cfg_check cf (c_chal c) resp = false /\ c_st c' = StClosed).
+Proof. exact judged_is_verdict. Qed.
+
+(* a failing DES backend (fail-closed branch of rfbEncryptBytes / rfbDecryptPasswdFromFile): refused *)
+Theorem C05_encrypt_failure_refuses : forall cf s e c resp e' c',
+  cfg_enc_fail cf = true -> s_pw s <> PwCustom ->
+  on_response cf s e c resp = (e', c') ->
+  c_st c' = StClosed /\ granted c' = false /\ c_told c' = c_told c ++ [TokFail].
+Proof. exact encrypt_failure_refuses. Qed.
+
 Theorem C05_password_snapshot : forall cf s e c resp e' c',
   on_response cf s e c resp = (e', c') -> c_pws c' = screen_passwords s /\ c_resp c' = Some resp.
 Proof. exact on_response_snapshot. Qed.
 
 (* ---- completeness under arbitrary activity of other connections, screens AND of the application
    (registering / unregistering handlers of any non-built-in type between the client's messages) *)
-Theorem C05_complete_4handlers : forall single ext tight p0 s scr pw ver mi tr1 tr2 tr3 b,
+Theorem C05_complete_4handlers : forall single ext tight chk p0 s scr pw ver mi tr1 tr2 tr3 b,
   acyc (p_hs p0) = true -> ext_ok ext -> nth_error (p_screens p0) s = Some scr -> has_password scr = true ->
   In pw (screen_passwords scr) ->
   length ver = 12%nat -> parse_version ver = Some (c05_rfbProtocolMajorVersion, mi) -> (7 <= mi)%Z ->
   let ci := length (p_conns p0) in
   forallb (foreign ci s) tr1 = true -> forallb (foreign ci s) tr2 = true -> forallb (foreign ci s) tr3 = true ->
-  let p1 := step (cfgF single ext tight) p0 (OConn s false ver false) in
-  let p2 := run (cfgF single ext tight) p1 tr1 in
+  let p1 := step (cfgF single ext tight chk) p0 (OConn s false ver false) in
+  let p2 := run (cfgF single ext tight chk) p1 tr1 in
   let ch := fst (take_rand (p_rand p2) 16) in
-  let p3 := step (cfgF single ext tight) p2 (OSend ci [zbyte c05_rfbSecTypeVncAuth] false) in
-  let p4 := run (cfgF single ext tight) p3 tr2 in
+  let p3 := step (cfgF single ext tight chk) p2 (OSend ci [zbyte c05_rfbSecTypeVncAuth] false) in
+  let p4 := run (cfgF single ext tight chk) p3 tr2 in
   forall r, vnc_encrypt pw ch = Some r ->
-  let p5 := step (cfgF single ext tight) p4 (OSend ci r false) in
-  let p6 := run (cfgF single ext tight) p5 tr3 in
-  let p7 := step (cfgF single ext tight) p6 (OSend ci [b] false) in
+  let p5 := step (cfgF single ext tight chk) p4 (OSend ci r false) in
+  let p6 := run (cfgF single ext tight chk) p5 tr3 in
+  let p7 := step (cfgF single ext tight chk) p6 (OSend ci [b] false) in
   exists c tl, nth_error (p_conns p7) ci = Some c /\ c_st c = StNormal /\ In c05_rfbSecTypeVncAuth tl /\
     c_out c = server_version ++ (N.of_nat (length tl) :: map zbyte tl) ++ ch ++ auth_ok ++ server_init scr.
 Proof. exact complete_fixed. Qed.
 
-Theorem C05_complete_33_4handlers : forall single ext tight p0 s scr pw ver mi tr2 tr3 b,
+Theorem C05_complete_33_4handlers : forall single ext tight chk p0 s scr pw ver mi tr2 tr3 b,
   acyc (p_hs p0) = true -> nth_error (p_screens p0) s = Some scr -> has_password scr = true ->
   In pw (screen_passwords scr) ->
   length ver = 12%nat -> parse_version ver = Some (c05_rfbProtocolMajorVersion, mi) -> (mi < 7)%Z ->
   let ci := length (p_conns p0) in
   forallb (foreign ci s) tr2 = true -> forallb (foreign ci s) tr3 = true ->
   let ch := fst (take_rand (p_rand p0) 16) in
-  let p3 := step (cfgF single ext tight) p0 (OConn s false ver false) in
-  let p4 := run (cfgF single ext tight) p3 tr2 in
+  let p3 := step (cfgF single ext tight chk) p0 (OConn s false ver false) in
+  let p4 := run (cfgF single ext tight chk) p3 tr2 in
   forall r, vnc_encrypt pw ch = Some r ->
-  let p5 := step (cfgF single ext tight) p4 (OSend ci r false) in
-  let p6 := run (cfgF single ext tight) p5 tr3 in
-  let p7 := step (cfgF single ext tight) p6 (OSend ci [b] false) in
+  let p5 := step (cfgF single ext tight chk) p4 (OSend ci r false) in
+  let p6 := run (cfgF single ext tight chk) p5 tr3 in
+  let p7 := step (cfgF single ext tight chk) p6 (OSend ci [b] false) in
   exists c, nth_error (p_conns p7) ci = Some c /\ c_st c = StNormal /\
             c_out c = server_version ++ be32 (Z.to_N c05_rfbSecTypeVncAuth) ++ ch ++ auth_ok ++ server_init scr.
 Proof. exact complete_fixed_33. Qed.
@@ -115,11 +134,11 @@ Theorem C05_deliver_fuel_suffices : forall extra cf p ci buf eof,
 Proof. exact deliver_fuel_suffices. Qed.
 
 (* ---- view-only passwords: any list, authPasswdFirstViewOnly at any position *)
-Theorem C05_viewonly : forall single ext tight p ci c scr pws fvo r i,
+Theorem C05_viewonly : forall single ext tight chk p ci c scr pws fvo r i,
   nth_error (p_conns p) ci = Some c -> nth_error (p_screens p) (c_screen c) = Some scr ->
   s_pw scr = PwList pws fvo -> c_st c = StAuth -> c_vo c = false -> length r = 16%nat ->
-  check_list (cfgF single ext tight) pws (c_chal c) r 0 = Some i ->
-  let p' := step (cfgF single ext tight) p (OSend ci r false) in
+  check_list (cfgF single ext tight chk) pws (c_chal c) r 0 = Some i ->
+  let p' := step (cfgF single ext tight chk) p (OSend ci r false) in
   exists c', nth_error (p_conns p') ci = Some c' /\ c_st c' = StInit /\ c_vo c' = (fvo <=? i)%Z.
 Proof. exact viewonly_fixed. Qed.
 
@@ -141,17 +160,18 @@ Theorem C05_versions_33 : forall cf scr e c ver mi,
        c_out c' = c_out c ++ be32 (Z.to_N c05_rfbSecTypeVncAuth) ++ fst (take_rand (e_rand e) 16)).
 Proof. exact versions_33. Qed.
 
-Theorem C05_versions_37_4handlers : forall single ext tight scr e c ver mi,
+Theorem C05_versions_37_4handlers : forall single ext tight chk scr e c ver mi,
   c_st c = StPV -> parse_version ver = Some (c05_rfbProtocolMajorVersion, mi) -> (7 <= mi)%Z ->
   acyc (e_hs e) = true -> length ext = 4%nat ->
-  exists e' c' tl, on_message (cfgF single ext tight) scr e c ver = (e', c', false) /\ c_minor c' = mi /\ c_st c' = StSec /\
+  exists e' c' tl, on_message (cfgF single ext tight chk) scr e c ver = (e', c', false) /\ c_minor c' = mi /\ c_st c' = StSec /\
     In (primary_type scr c) tl /\ c_out c' = c_out c ++ N.of_nat (length tl) :: map zbyte tl.
 Proof. exact versions_37. Qed.
 
-Theorem C05_versions_failure : forall single ext tight scr e c r,
+Theorem C05_versions_failure : forall single ext tight chk scr e c r,
   c_st c = StAuth -> length (c_chal c) = 16%nat ->
   (forall pw, In pw (screen_passwords scr) -> vnc_encrypt pw (c_chal c) <> Some r) ->
-  exists c', on_message (cfgF single ext tight) scr e c r = (e, c', false) /\ c_st c' = StClosed /\
+  (s_pw scr = PwCustom -> chk (c_chal c) r = false) ->
+  exists c', on_message (cfgF single ext tight chk) scr e c r = (e, c', false) /\ c_st c' = StClosed /\
     c_out c' = c_out c ++ auth_failed ++
                (if (7 <? c_minor c)%Z then be32 (N.of_nat (length reason_failed)) ++ reason_failed else []).
 Proof. exact versions_failure. Qed.
@@ -212,8 +232,8 @@ Proof. exact tight_negotiation. Qed.
 (* ---- UDP input channel (screen->udpPort): since 93b245e (= notes/fix_C05_4.diff, part of the baseline cfgF) no input
    event reaches the application of a screen that requires a password, on any trace (property theorem);
    the code before it (cfgU, regression witness) hands a datagram of a peer that proved nothing to kbdAddEvent *)
-Theorem C05_udp_input_gated : forall single ext tight ops s scr,
-  let p := run (cfgF single ext tight) proc_init ops in
+Theorem C05_udp_input_gated : forall single ext tight chk ops s scr,
+  let p := run (cfgF single ext tight chk) proc_init ops in
   In s (p_input p) -> nth_error (p_screens p) s = Some scr -> has_password scr = false.
 Proof. exact udp_gated_fixed. Qed.
 
@@ -225,7 +245,7 @@ Proof. exact udp_input_refuted. Qed.
 (* universally quantified completeness of the nested TightVNC path: any process state in which the
    lookup of type 16 finds the library's handler, any protected screen, configured password, challenge
    and protocol minor version *)
-Theorem C05_tight_complete : forall single ext tight p ci c scr pw r,
+Theorem C05_tight_complete : forall single ext tight chk p ci c scr pw r,
   tight = true ->
   nth_error (p_conns p) ci = Some c -> nth_error (p_screens p) (c_screen c) = Some scr ->
   c_st c = StSec -> protected scr c = true ->
@@ -233,7 +253,7 @@ Theorem C05_tight_complete : forall single ext tight p ci c scr pw r,
   In pw (screen_passwords scr) ->
   let ch := fst (take_rand (p_rand p) 16) in
   vnc_encrypt pw ch = Some r ->
-  let p' := step (cfgF single ext tight) p (OSend ci ([16%N] ++ be32 (Z.to_N c05_rfbSecTypeVncAuth) ++ r) false) in
+  let p' := step (cfgF single ext tight chk) p (OSend ci ([16%N] ++ be32 (Z.to_N c05_rfbSecTypeVncAuth) ++ r) false) in
   exists c', nth_error (p_conns p') ci = Some c' /\ c_st c' = StInit /\ told_in c' /\ c_resp c' = Some r /\
              c_out c' = c_out c ++ be32 0 ++ (be32 1 ++ tight_vnc_cap) ++ ch ++ auth_ok.
 Proof. exact tight_complete. Qed.
